@@ -72,7 +72,7 @@ theorem Open.inv {l : EncLL} (h : Open l) : Inv l := ⟨h.cfg, Or.inr h.last⟩
     not wrap (side conditions by `omega` from the context); extra rewrite rules in brackets -/
 macro "st_norm" " [" ls:Lean.Parser.Tactic.simpLemma,* "]" : tactic =>
   `(tactic| simp (disch := omega) only [stOf_min, stOf_max, stOf_dev, stOf_stream, stOf_tmpl, stOf_bytesLeft, stOf_seqc, stOf_mt,
-      stOf_frames, pkOf_mt, pkOf_len, pkOf_data, pkOf_fh, pkOf_mh, bind, pure, some_bind, usub_eq', SrcTie.uadd_eq, beq_iff_eq, if_true, if_false, ite_true, ite_false,
+      stOf_frames, pkOf_mt, pkOf_len, pkOf_data, pkOf_fh, pkOf_mh, bind, pure, some_bind, usub_eq', SrcTie.uadd_eq, beq_iff_eq, bne_iff_ne, ne_eq, ite_not, not_true_eq_false, not_false_eq_true, if_true, if_false, ite_true, ite_false,
       Bool.false_eq_true, $ls,*])
 
 theorem closeLastFrame_src (l : EncLL) (h : Inv l) :
